@@ -58,7 +58,7 @@ func NewH265Depacketizer(meta *codec.VideoMeta, w codec.FrameWriter) Depacketize
  */
 func (h265dp *h265Depacketizer) Depacketize(packet *Packet) (err error) {
 	payload := packet.Payload()
-	if len(payload) < 3 {
+	if len(payload) < 2 { // 最短的 NAL 只有 2 字节头（end of sequence / end of bitstream）
 		return
 	}
 
@@ -108,6 +108,9 @@ func (h265dp *h265Depacketizer) depacketizeStap(packet *Packet) (err error) {
 
 func (h265dp *h265Depacketizer) depacketizeFu(packet *Packet) (err error) {
 	payload := packet.Payload()
+	if len(payload) < 3 { // PayloadHdr + FU header
+		return
+	}
 	rawDataOffset := 3 // 原始数据的偏移 = FU indicator + header
 
 	//  0 1 2 3 4 5 6 7
